@@ -314,6 +314,9 @@ def run_cmd_problems(prog):
     return problems
 
 
+SERVER_SPECS = {"A": TupleV((Const("10.0.0.1"), Const(11211))), "B": Const("/var/run/memcached-b.sock"), "C": TupleV((Const("10.0.0.3"), Const(11211)))}
+
+
 class HashDomain(ExactCollections, Domain):
     """HashClient's multi-key operations interpreted end to end: symbolic keys K1..Kn, a scripted router
     (key -> server name or None), scripted per-server answers.  Lists / dicts / defaultdicts are heap objects
@@ -364,7 +367,9 @@ class HashDomain(ExactCollections, Domain):
             return state.get("self." + node.attr, TOP)
         if isinstance(objval, Opaque) and objval.tag.startswith("client:"):
             if node.attr == "server":
-                return Opaque("server:" + objval.tag[7:])
+                # the servers of the scenario are of both kinds a HashClient can be given - (host, port) pairs and a
+                # UNIX socket path - so that code which orders or compares server specs meets the mixed case
+                return SERVER_SPECS.get(objval.tag[7:], Opaque("server:" + objval.tag[7:]))
             return BoundCall(objval, Const(node.attr))
         return TOP
 
@@ -401,6 +406,8 @@ class HashDomain(ExactCollections, Domain):
             return [("ok", TupleV((Opaque("client:" + srv) if srv is not None else NONE, Opaque("inner:" + self.inner.get(tag, tag)))), st)]
         if name == "self._make_client_key" and args and isinstance(args[0], Opaque) and args[0].tag.startswith("server:"):
             return [("ok", Opaque("node:" + args[0].tag[7:]), state)]
+        if name == "self._make_client_key" and args and args[0] in SERVER_SPECS.values():
+            return [("ok", Opaque("node:" + [k for k, v in SERVER_SPECS.items() if v == args[0]][0]), state)]
         if name == "getattr" and len(args) == 2 and isinstance(args[0], Opaque) and args[0].tag.startswith("client:"):
             return [("ok", BoundCall(args[0], args[1]), state)]
         if name in ("self._safely_run_func", "self._safely_run_set_many"):
@@ -650,6 +657,8 @@ def _same_runs(got, want):
         return g is not None and g == _deletes(want[1])
     if len(got) != len(want):
         return False
+    # (which server is asked first is not part of the property: the calls are compared as a collection)
+    got, want = sorted(got, key=str), sorted(want, key=str)
     for (gn, ga, gk), (wn, wa, wk) in zip(got, want):
         if gn != wn or len(ga) != len(wa) or gk != wk:
             return False
